@@ -20,6 +20,7 @@ pub enum Tok {
     Poison,
     NoneT,
     SomeT,
+    Str(u8),
 }
 
 pub struct Tokens {
@@ -146,6 +147,11 @@ impl TokVal for ZstA8 {
         o.push(Tok::End);
     }
 }
+impl TokVal for Box<str> {
+    fn push_to(&self, o: &mut Tokens) {
+        o.push(Tok::Str(str_id(self)))
+    }
+}
 impl TokVal for Zst {
     fn push_to(&self, o: &mut Tokens) {
         o.push(Tok::Unit)
@@ -263,7 +269,11 @@ impl<'a> serde::Serializer for Ser<'a> {
     }
     ser_unsupported! {
         serialize_bool(bool); serialize_i8(i8); serialize_i16(i16); serialize_i32(i32); serialize_i64(i64);
-        serialize_f32(f32); serialize_f64(f64); serialize_char(char); serialize_str(&str); serialize_bytes(&[u8]);
+        serialize_f32(f32); serialize_f64(f64); serialize_char(char); serialize_bytes(&[u8]);
+    }
+    fn serialize_str(self, v: &str) -> Result<(), FmtErr> {
+        self.out.push(Tok::Str(str_id(v)));
+        Ok(())
     }
     fn serialize_none(self) -> Result<(), FmtErr> {
         self.out.push(Tok::NoneT);
@@ -466,9 +476,26 @@ impl<'de, 'd, 'a> serde::Deserializer<'de> for &'d De<'a> {
     }
     de_unsupported! {
         deserialize_any deserialize_bool deserialize_i8 deserialize_i16 deserialize_i32 deserialize_i64
-        deserialize_f32 deserialize_f64 deserialize_char deserialize_str deserialize_string deserialize_bytes
+        deserialize_f32 deserialize_f64 deserialize_char deserialize_bytes
         deserialize_byte_buf deserialize_seq deserialize_map deserialize_identifier
         deserialize_ignored_any
+    }
+    fn deserialize_str<V: Visitor<'de>>(self, v: V) -> Result<V::Value, FmtErr> {
+        match self.next() {
+            Tok::Str(id) if (id as usize) < STRS.len() => {
+                if self.self_describing {
+                    // like a text format whose string had to be unescaped: the visitor gets a transient string
+                    v.visit_str(STRS[id as usize])
+                } else {
+                    // like a binary format decoding from a slice: the input lends the string
+                    v.visit_borrowed_str(STRS[id as usize])
+                }
+            }
+            _ => Err(FmtErr),
+        }
+    }
+    fn deserialize_string<V: Visitor<'de>>(self, v: V) -> Result<V::Value, FmtErr> {
+        self.deserialize_str(v)
     }
     fn deserialize_option<V: Visitor<'de>>(self, v: V) -> Result<V::Value, FmtErr> {
         match self.next() {
